@@ -1,0 +1,1 @@
+pub use crate::units::bmp_tcp_in::verif::*;
